@@ -49,6 +49,9 @@ func genSubset(r *common.Rng, lo, hi int) []int {
 }
 
 func genAllocs(r *common.Rng) [][]int {
+	if r.Chance(1, 6) {
+		return [][]int{genSubset(r, 2, 3)} // one list of several destinations (the mixed-fault shape needs it)
+	}
 	switch r.Intn(10) {
 	case 0:
 		return [][]int{{0}}
@@ -106,6 +109,24 @@ func genOpts(r *common.Rng, shard uint64, allocated int) string {
 // received put, for count puts, as an IPFS error or as an RPC error), of
 // BlockAllocate calls and of Pin calls.
 func genFaults(r *common.Rng, c *tcase, nblocks int) {
+	// mixed kinds on one block: every destination of the (single) allocation list refuses the same put,
+	// one with an RPC error and the others with IPFS errors - at the first block of the add or at a later one
+	if len(c.allocs) == 1 && len(c.allocs[0]) >= 2 && !c.local && r.Chance(1, 3) {
+		j := 0
+		if r.Bool() {
+			j = r.Intn(nblocks + 1)
+		}
+		dests := c.allocs[0]
+		rpcAt := r.Intn(len(dests))
+		for i, p := range dests {
+			kind := byte('i')
+			if i == rpcAt || (len(dests) > 2 && r.Chance(1, 4)) {
+				kind = 'r'
+			}
+			c.faults = append(c.faults, fault{peer: p, from: j, count: 1, kind: kind})
+		}
+		return
+	}
 	if r.Chance(11, 20) {
 		return
 	}
